@@ -24,9 +24,10 @@
   lighttpd frames each read as one chunk when it has to use chunked encoding towards the client;
   so the top level consumes one backend read ("segment") at a time: `onData`, then `onEnd`.
 
-  Two deliberate differences from the pinned C (both reported defects, see Props/C10.lean):
-  the chunked decoder checks the CR in front of the size line's LF (HttpChunkDecode.lean), and
-  `mergeTrailers` strips the CR of a trailer line before inserting the value as response field.
+  The model describes the code with the C10 repairs applied (seeded/C10-fixes): CR check of the
+  chunked decoder, CR stripped from merged trailer values, `gw_dechunk->done` for responses without
+  Status, keep-alive off / 502 for a body the backend cut short, invalid Content-Length not relayed,
+  502 instead of a partial response while the client-side head has not been sent.
 
   Not modelled (the harness keeps them switched off): authorizer mode, Upgrade/CONNECT,
   X-Sendfile, local redirects, error handlers / error_intercept, request bodies, write
@@ -247,8 +248,7 @@ def dechunkAppend (st : St) (data : Bytes) : St × Bool :=
       match d'.mode with
       | .err => ({ st1 with dc := some d'' }, false)
       | .done acc =>
-        -- (`done` records the response status; the pinned C stores 0 for a CGI-style response
-        --  without Status header and then never finishes the response: reported defect)
+        -- (`done` records the response status, 200 if it is still unset)
         let st2 : St := { st1 with dc := some d'', dcDone := if st.status = 0 then 200 else st.status,
                                    trailerBuf := acc, finished := true }
         (if st.sendChunked then { st2 with wq := st2.wq ++ data } else st2, true)
@@ -328,8 +328,9 @@ def applyField (cfg : Cfg) (st : St) (k v : Bytes) : St :=
       let t := trimRightWs v1
       if t.isEmpty then st
       else
-        let sp' : Int := match strtoI64 t with | some n => n | none => -1
-        ins { st with scratch := sp' } v1
+        match strtoI64 t with
+        | some n => ins { st with scratch := n } v1
+        | none => { st with scratch := -1 }     -- invalid value: not relayed, read until backend EOF
     else st
   else if lk = nTransferEncoding then
     let st1 : St := if hasHdr st.headers nContentLength then
@@ -510,21 +511,41 @@ def chunkClose (st : St) : St :=
   else if st.dc.isSome then (if st.dcDone = 0 then { st with keepAlive := false } else st)
   else { st with wq := st.wq ++ ofString "0\r\n\r\n" }
 
+/-- http_response_body_clear() -/
+def bodyClear (st : St) (preserveLength : Bool) : St :=
+  let st1 : St := { st with finished := false, started := false, sendChunked := false, scratch := -1,
+                            headers := hdrUnset st.headers nTransferEncoding, wq := [] }
+  if preserveLength then st1
+  else { st1 with headers := hdrUnset st1.headers nContentLength, decodeChunked := false,
+                  dc := none, dcDone := 0, trailerBuf := [] }
+
+/-- http_response_backend_incomplete(): the backend response is incomplete and the response head has
+    not been sent to the client yet (`resp_header_len == 0`): answer 502 instead of a partial response -/
+def backendIncomplete (st : St) : St :=
+  { (bodyClear st false) with status := 502, handler := false }
+
+/-- the backend closed before the end of the body it announced: fewer bytes than Content-Length, or
+    a chunked body without last-chunk -/
+def bodyTruncated (st : St) : Bool := st.scratch > 0 || (st.dc.isSome && st.dcDone = 0)
+
 /-- http_response_backend_done() -/
 def backendDone (cfg : Cfg) (st : St) : St :=
   if st.cstate = .done then st
   else if st.cstate = .handle && !st.started then
     { st with status := if st.status < 500 && st.status ≠ 400 then 500 else st.status, handler := false }
   else if !st.finished then
-    -- fewer bytes than the announced Content-Length: the connection cannot be reused
-    -- (missing in the pinned C: reported defect)
-    let st1 : St := if st.scratch > 0 then { st with keepAlive := false } else st
-    { (if cfg.ver = 1 then chunkClose st1 else st1) with finished := true }
+    if bodyTruncated st && !st.hdrSent then backendIncomplete st
+    else
+      -- (head already sent: the connection cannot be reused)
+      let st1 : St := if bodyTruncated st then { st with keepAlive := false } else st
+      { (if cfg.ver = 1 then chunkClose st1 else st1) with finished := true }
   else st
 
 /-- http_response_backend_error() -/
 def backendError (st : St) : St :=
-  if st.started then { st with handler := false, keepAlive := false, finished := true } else st
+  if st.started && !st.hdrSent then backendIncomplete st
+  else if st.started then { st with handler := false, keepAlive := false, finished := true }
+  else st
 
 /-- gw_connection_close() -/
 def gwClose (cfg : Cfg) (st : St) : St :=
@@ -572,14 +593,6 @@ def errorPage (status : Nat) : Bytes :=
   ofString "</title>\n </head>\n <body>\n  <h1>" ++ statusText status ++
   ofString "</h1>\n </body>\n</html>\n"
 
-/-- http_response_body_clear() -/
-def bodyClear (st : St) (preserveLength : Bool) : St :=
-  let st1 : St := { st with finished := false, started := false, sendChunked := false, scratch := -1,
-                            headers := hdrUnset st.headers nTransferEncoding, wq := [] }
-  if preserveLength then st1
-  else { st1 with headers := hdrUnset st1.headers nContentLength, decodeChunked := false,
-                  dc := none, dcDone := 0, trailerBuf := [] }
-
 /-- http_response_static_errdoc() (no error handler, no errorfile-prefix configured) -/
 def staticErrdoc (st : St) : St :=
   if st.handler then st
@@ -603,7 +616,7 @@ def linesOf : Bytes → Bytes → List Bytes
   | b :: rest, cur => if b = lf then (cur ++ [b]) :: linesOf rest [] else linesOf rest (cur ++ [b])
 
 /-- one trailer line (with LF) as response field; the CR in front of the LF is not part of the
-    value (the pinned C leaves it in: reported defect) -/
+    value -/
 def trailerField (line : Bytes) : Option (Bytes × Bytes) :=
   let body := line.dropLast
   match findIdx (· = colon) body 0 with
